@@ -76,7 +76,7 @@ def make_scenario(seed, idx, U, si=False):
     if extra and idx % 2 == 0:
         # ids with characters outside ASCII (speaker names): a manifest line is longer in bytes than in characters
         extra[0] = ["spk_\u00e9%d" % (idx % 7), "\u8a71\u8005%d" % (idx % 5)][(idx // 2) % 2]
-    ids = ["u12"] + extra
+    ids = ["u12" if idx % 2 else "u1\u00e92"] + extra  # (every other scenario: a character outside ASCII in an id that is always there)
     ids.insert(int(rng.integers(1, len(ids) + 1)), "u1")
     ids.insert(int(rng.integers(0, len(ids) + 1)), "u")
     ids = ids[:max(U, 3)]
